@@ -14,47 +14,52 @@ import (
 func SeekCommonAncestor(db objects.Store, commits ...[]byte) (baseCommit []byte, err error) {
 	n := len(commits)
 	qs := make([]*CommitsQueue, n)
-	bases := make([][]byte, n)
 	for i, sum := range commits {
 		qs[i], err = NewCommitsQueue(db, [][]byte{sum})
 		if err != nil {
 			return
 		}
-		bases[i] = sum
-	}
-	for {
-		for i := len(bases) - 1; i >= 0; i-- {
-			for j := len(bases) - 1; j >= 0; j-- {
-				if i == j {
-					continue
-				}
-				if qs[j].Seen(bases[i]) {
-					// remove j element
-					copy(bases[j:], bases[j+1:])
-					bases = bases[:len(bases)-1]
-					copy(qs[j:], qs[j+1:])
-					qs = qs[:len(qs)-1]
-					if i > j {
-						i--
-					}
-				}
-			}
-		}
-		if len(bases) == 1 {
-			break
-		}
-		eofs := 0
-		for i, q := range qs {
-			bases[i], _, err = q.PopInsertParents()
+		// walk the whole history so that qs[i].Seen tells whether a commit
+		// is commits[i] or one of its ancestors
+		for {
+			_, _, err = qs[i].PopInsertParents()
 			if errors.Is(err, io.EOF) {
-				eofs++
-			} else if err != nil {
+				break
+			}
+			if err != nil {
 				return nil, err
 			}
 		}
-		if eofs == len(qs) {
-			return nil, fmt.Errorf("common ancestor commit not found")
+	}
+	isCommon := func(sum []byte) bool {
+		for _, q := range qs {
+			if !q.Seen(sum) {
+				return false
+			}
+		}
+		return true
+	}
+	// a commit that is an ancestor of all the others is the base
+	for _, sum := range commits {
+		if isCommon(sum) {
+			return sum, nil
 		}
 	}
-	return bases[0], nil
+	// otherwise pick the most recent commit that all commits descend from
+	q, err := NewCommitsQueue(db, commits)
+	if err != nil {
+		return nil, err
+	}
+	for {
+		sum, _, err := q.PopInsertParents()
+		if errors.Is(err, io.EOF) {
+			return nil, fmt.Errorf("common ancestor commit not found")
+		}
+		if err != nil {
+			return nil, err
+		}
+		if isCommon(sum) {
+			return sum, nil
+		}
+	}
 }
